@@ -407,14 +407,18 @@ func c09Bookkeeping(c *Ctx, t *c09Tables) {
 	co := w.Fn(statePkg, "StateDB", "createObject")
 	c.sawFunc(fname(co))
 	var prevCall ssa.CallInstruction
+	includesDeleted := false
 	for _, ci := range callInstrs(co) {
-		if o := calleeObj(ci); o != nil && o.Name() == "getDeletedStateObject" {
+		if o := calleeObj(ci); o != nil && (o.Name() == "getDeletedStateObject" || o.Name() == "getStateObject") && recvName(o) == "StateDB" {
 			prevCall = ci
+			includesDeleted = o.Name() == "getDeletedStateObject"
 		}
 	}
 	if prevCall == nil {
-		c.Undecided(fname(co)+"#creation-entry", co.Pos(), "createObject no longer looks the previous object up with getDeletedStateObject")
+		c.Undecided(fname(co)+"#creation-entry", co.Pos(), "createObject no longer looks the previous object up")
 	} else {
+		c.sites++
+		c.Check(fname(co)+"#previous-object-lookup-includes-deleted", prevCall.Pos(), includesDeleted, ifelse(includesDeleted, "the previous object is looked up with getDeletedStateObject, which also returns objects marked deleted earlier in the block", "the previous object is looked up with getStateObject, which hides objects marked deleted by an earlier transaction of the block: their re-creation is journaled as a plain creation, and reverting it drops the tombstone — the destroyed account comes back from the trie with its old balance, code and storage"))
 		for _, a := range callsTo(co, t.append_) {
 			args := callArgs(a)
 			et := stripConv(args[0]).Type()
@@ -449,6 +453,102 @@ func c09Bookkeeping(c *Ctx, t *c09Tables) {
 				ok := nonNilPrev && carries
 				c.Check(fname(co)+"#resetObjectChange-carries-previous", a.Pos(), ok, ifelse(ok, "appended under prev != nil with the previous object as pre-image", "the reset entry does not carry the previous object"))
 			}
+		}
+	}
+
+	// ------------------------------------------------------------ J8
+	c.Rule("C09.J8", "OWNERSHIP", "a slice whose previous value a journal entry keeps by reference (stateObject.delegations → delegationsChange.prevdlgs) is never edited in place: every element store or copy() destination in core/state whose backing array may be the field's current one — reached through append or re-slicing without a fresh make — is a violation, because it rewrites the undo copy")
+	c.Min(2)
+	{
+		dlgF := w.Field(statePkg, "stateObject", "delegations")
+		var mayAlias func(v ssa.Value, seen map[ssa.Value]bool) bool
+		mayAlias = func(v ssa.Value, seen map[ssa.Value]bool) bool {
+			if seen[v] {
+				return false
+			}
+			seen[v] = true
+			switch x := v.(type) {
+			case *ssa.Slice:
+				return mayAlias(x.X, seen)
+			case *ssa.ChangeType:
+				return mayAlias(x.X, seen)
+			case *ssa.Convert:
+				return mayAlias(x.X, seen)
+			case *ssa.Phi:
+				for _, e := range x.Edges {
+					if mayAlias(e, seen) {
+						return true
+					}
+				}
+			case *ssa.Call:
+				if bi, ok := x.Call.Value.(*ssa.Builtin); ok && bi.Name() == "append" {
+					return mayAlias(x.Call.Args[0], seen)
+				}
+			case *ssa.UnOp:
+				if f, base := loadedField(x); f == dlgF {
+					// the list of another object that this function has just given a fresh array (the copy in deepCopy)
+					fn := x.Parent()
+					if len(fn.Params) > 0 && base != ssa.Value(fn.Params[0]) {
+						stores, fresh := 0, 0
+						for _, fw := range fieldWrites(fn) {
+							if fw.Field == dlgF && fw.Kind == "store" && samePath(fw.Base, base) {
+								stores++
+								if _, isMake := stripConv(fw.Instr.(*ssa.Store).Val).(*ssa.MakeSlice); isMake {
+									fresh++
+								}
+							}
+						}
+						if stores > 0 && stores == fresh {
+							return false
+						}
+					}
+					return true
+				}
+			}
+			return false
+		}
+		nWrites := 0
+		for _, fn := range w.FuncsIn(statePkg) {
+			if strings.HasSuffix(w.fileOf(fn.Pos()), "_test.go") {
+				continue
+			}
+			uses := false
+			for _, in := range fieldReads(fn, dlgF) {
+				_ = in
+				uses = true
+			}
+			if !uses {
+				continue
+			}
+			n := 0
+			for _, in := range allInstrs(fn) {
+				var dst ssa.Value
+				switch x := in.(type) {
+				case *ssa.Store:
+					if ia, ok := x.Addr.(*ssa.IndexAddr); ok {
+						dst = ia.X
+					}
+				case *ssa.Call:
+					if bi, ok := x.Call.Value.(*ssa.Builtin); ok && bi.Name() == "copy" {
+						dst = x.Call.Args[0]
+					}
+				}
+				if dst == nil {
+					continue
+				}
+				if _, isSlice := dst.Type().Underlying().(*types.Slice); !isSlice {
+					continue
+				}
+				nWrites++
+				c.sites++
+				c.sawFunc(fname(fn))
+				alias := mayAlias(dst, map[ssa.Value]bool{})
+				c.Check(fmt.Sprintf("%s#in-place-write@%d-not-on-journaled-slice", fname(fn), n), in.Pos(), !alias, ifelse(!alias, "the slice written into is freshly made in this function", "elements are written into a slice that may share its backing array with stateObject.delegations (obtained by append / re-slicing, which reuse spare capacity): the journal's undo copy of the delegation list is the same array, so a revert restores a list with a phantom validator and without the last real one — under the old hash"))
+				n++
+			}
+		}
+		if nWrites < 2 {
+			c.Undecided("core/state.stateObject.delegations#in-place-writes", 0, fmt.Sprintf("only %d in-place slice writes found in functions that read the delegation list", nWrites))
 		}
 	}
 
